@@ -1,7 +1,229 @@
-From Coq Require Import QArith.
-From Asynkit Require Import Base.Prelude Sched.Model.
-(* placeholder: the C14 theorems land in Sched/CondProofs.v *)
+(* C14 - Conditions: lock held on every exit from wait(), ordered notify, none lost.
+
+   Statements over the executable scheduler model (Sched/Model.v), universally quantified
+   over states, tasks, conditions, frame stacks and inputs.  Proofs: Sched/CondView.v,
+   CondProofs.v, CondNotify.v, CondThms.v; instances on reachable states: Sched/CondExamples.v.
+
+   Vocabulary (Sched/CondProofs.v).  A task suspended inside `cond.wait()` of condition c
+   (lock l) has one of the stacks [wait_stack c l frs]:
+       [InFut f; InCondWaitP c f]   [InFut f; InCondWaitI c f]            inside `await fut`
+       [InFut f; InAcquireP l f had; R]   [InFut f; InAcquireA l f; R]    inside the `await lock.acquire()`
+         of the re-acquire retry loop, R = InReleasedP c err body (PriorityCondition, _released.__aexit__)
+         or InReacquireI c err body (InterruptCondition); err = the last CancelledError caught
+         by the loop, body = how the `await fut` block ended (RVal 1 or the exception).
+   [stack_wf s t l frs]: the acquire frame is the one of the lock's kind, and a PriorityTask
+   suspended in PriorityLock.acquire registered itself with set_waiting_on (had = true).
+   [wait_input s l frs inp], the inputs considered:
+     - RVal _ when the awaited future holds a result (what Task.__wakeup sends); for a
+       PriorityLock waiter additionally `lowner (getl s l) = None` - C13: a woken waiter
+       finds the lock without owner ([C14_preconditions_from_C13] derives it);
+     - RExc e for ANY e while inside `await fut` (the `finally` re-acquires whatever happens);
+     - RExc e with is_cancel e = true (CancelledError, any InterruptException, TimeoutInterrupt)
+       while inside the retry loop.  A non-CancelledError exception thrown into the retry loop
+       leaves wait() WITHOUT the lock (Sched/CondExamples.v, non_cancel_exit_without_lock).
+   [pending_exc frs]: the exception remembered by the retry frame (err, else an exceptional body);
+   [last_exc frs inp]: the current input if it is an exception, else [pending_exc frs].
+   Preconditions on the state, both instances of facts established elsewhere:
+     - l is a lock and, if it is a PriorityLock, "free => no owner" (I1 of the C13 invariant);
+     - at the `await fut` point a PriorityTask is not already waiting on a lock
+       (`with _waiting_on` asserts it; true unless the coroutine was started eagerly by a
+       PriorityTask that was itself blocked - then the real code fails the same assertion). *)
+From Coq Require Import QArith Sorting.Permutation.
+From Asynkit Require Import Base.Prelude Queue.PQ Queue.Order Queue.PosPQ Queue.Exec Sched.Model
+  Sched.QFacts Sched.LockInv Sched.CondView Sched.CondProofs Sched.CondNotify Sched.CondThms.
+Open Scope nat_scope.
+
+(* kept from the first round: the `except BaseException: self._notify(1); raise` clause
+   re-raises the exception it caught *)
 Theorem C14_after_p_keeps_exception :
   forall s c e, snd (cond_p_after s c (RExc e)) = RExc e.
 Proof. reflexivity. Qed.
 Print Assumptions C14_after_p_keeps_exception.
+
+(* One resumption of a task suspended inside wait(), at any of the suspension points, with
+   any of the inputs above, in any state:
+   (a) it suspends again, (again) inside the retry loop, on a fresh future, and NO lock changed
+       kind, locked flag or owner - so the same theorem applies to the next input; or
+   (b) wait() is left and the condition's lock is locked; for a PriorityLock its owner is the
+       caller t; every other lock is untouched.  For an asyncio.Lock (no owner field): the lock
+       was free when this very resumption began, unless the task was woken as the lock's own
+       waiter ([woken_a], where asyncio sets _locked = True itself). *)
+Theorem C14_lock_on_exit :
+  forall (s : st) (t c : nat) (frs : list frame) (inp : reply) (s' : st) (r : lres),
+    let l := clock (getc s c) in
+    wait_stack c l frs -> stack_wf s t l frs ->
+    (l < length (locks s) /\
+     (lkind_ (getl s l) = LPrio -> llocked (getl s l) = false -> lowner (getl s l) = None)) ->
+    (at_wait_point frs = true -> lkind_ (getl s l) = LPrio ->
+     is_prio_task s t = true -> twaiting (gett s t) = None) ->
+    wait_input s l frs inp ->
+    resume_stack t frs inp s = (s', r) ->
+    match r with
+    | LSusp y frs' =>
+        (exists f' rest, y = YFut f' /\ frs' = InFut f' :: rest) /\
+        wait_stack c l frs' /\ stack_wf s' t l frs' /\ at_wait_point frs' = false /\
+        is_pcond frs' = is_pcond frs /\
+        (forall l0, lkind_ (getl s' l0) = lkind_ (getl s l0) /\
+                    llocked (getl s' l0) = llocked (getl s l0) /\
+                    lowner (getl s' l0) = lowner (getl s l0)) /\
+        clock (getc s' c) = l /\ l < length (locks s') /\
+        is_prio_task s' t = is_prio_task s t
+    | LDone rep =>
+        llocked (getl s' l) = true /\
+        (lkind_ (getl s' l) = LPrio -> lowner (getl s' l) = Some t) /\
+        (lkind_ (getl s l) = LPlain -> llocked (getl s l) = false \/ woken_a frs inp) /\
+        (forall l0, l0 <> l ->
+                    lkind_ (getl s' l0) = lkind_ (getl s l0) /\
+                    llocked (getl s' l0) = llocked (getl s l0) /\
+                    lowner (getl s' l0) = lowner (getl s l0))
+    end.
+Proof. exact lock_on_exit_full. Qed.
+Print Assumptions C14_lock_on_exit.
+
+(* The exception that leaves wait() is the last one delivered inside it: in case (b) the reply
+   is `RExc e` for the current input if that is an exception, else for the exception remembered
+   by the retry frame - never a fresh CancelledError - and `RVal 1` (True) if there was none;
+   in case (a) the new frame remembers exactly that exception. *)
+Theorem C14_exception_identity :
+  forall (s : st) (t c : nat) (frs : list frame) (inp : reply) (s' : st) (r : lres),
+    let l := clock (getc s c) in
+    wait_stack c l frs -> stack_wf s t l frs ->
+    (l < length (locks s) /\
+     (lkind_ (getl s l) = LPrio -> llocked (getl s l) = false -> lowner (getl s l) = None)) ->
+    (at_wait_point frs = true -> lkind_ (getl s l) = LPrio ->
+     is_prio_task s t = true -> twaiting (gett s t) = None) ->
+    wait_input s l frs inp ->
+    resume_stack t frs inp s = (s', r) ->
+    match r with
+    | LSusp y frs' => pending_exc frs' = last_exc frs inp
+    | LDone rep => rep = match last_exc frs inp with Some e => RExc e | None => RVal 1 end
+    end.
+Proof. exact exception_identity_full. Qed.
+Print Assumptions C14_exception_identity.
+
+(* Any number of faults.  [wait_run t c l s frs inps s' rep] (Sched/CondThms.v): the task is
+   resumed in s with the first input; whenever it suspends again, ANY state may come next
+   (other tasks and the loop run) provided the preconditions above hold there for the new
+   stack and the next input; the last resumption leaves wait() in s' with reply rep.
+   Then the lock is held by the caller in s', and rep is the last exception of the whole
+   input sequence (else the one already remembered by the initial stack, else True). *)
+Theorem C14_lock_on_exit_any_number_of_faults :
+  forall t c l s frs inps s' rep,
+    wait_run t c l s frs inps s' rep ->
+    llocked (getl s' l) = true /\
+    (lkind_ (getl s' l) = LPrio -> lowner (getl s' l) = Some t) /\
+    rep = match fold_left (fun acc inp => match inp with RExc e => Some e | RVal _ => acc end)
+                          inps (pending_exc frs)
+          with Some e => RExc e | None => RVal 1 end.
+Proof. exact wait_run_exit_full. Qed.
+Print Assumptions C14_lock_on_exit_any_number_of_faults.
+
+(* The preconditions hold at every step of a suspended task in a state satisfying the C13
+   invariant [Inv] (all reachable states, C13_inv): [step_entry s t] is the state in which
+   Task.__step resumes the stack; exc is the exception it throws (None: send the result). *)
+Theorem C14_preconditions_from_C13 :
+  forall (s : st) (t c : nat) (frs : list frame) (k : reply -> coro) (exc : option exn),
+    Inv s -> tcont_ (gett s t) = TSusp frs k ->
+    let l := clock (getc s c) in
+    wait_stack c l frs -> stack_wf s t l frs -> l < length (locks s) ->
+    (at_wait_point frs = true -> lkind_ (getl s l) = LPrio ->
+     is_prio_task s t = true -> twaiting (gett s t) = None) ->
+    match exc with
+    | None => exists f rest v, frs = InFut f :: rest /\ fstate_ (getf s f) = FResult v
+    | Some e => is_cancel e = true \/ at_wait_point frs = true
+    end ->
+    let se := step_entry s t in
+    let l' := clock (getc se c) in
+    let inp := match exc with None => RVal 0 | Some e => RExc e end in
+    wait_stack c l' frs /\ stack_wf se t l' frs /\
+    (l' < length (locks se) /\
+     (lkind_ (getl se l') = LPrio -> llocked (getl se l') = false -> lowner (getl se l') = None)) /\
+    (at_wait_point frs = true -> lkind_ (getl se l') = LPrio ->
+     is_prio_task se t = true -> twaiting (gett se t) = None) /\
+    wait_input se l' frs inp.
+Proof. exact wait_pre_of_inv. Qed.
+Print Assumptions C14_preconditions_from_C13.
+
+(* PriorityCondition.notify(n) / _notify(n).  The waiters in notification order are the stable
+   sort of the heap by (priority at wait start, arrival number) - [sorted]: no later entry is
+   smaller in the entry order of PriEntry.__lt__.  Given a well-formed waiter heap ([qwf]: heap
+   invariant of C17, distinct arrival numbers, distinct futures) whose futures exist:
+   exactly the first n not-yet-done futures of that order get the result True, every other
+   future is untouched, and the heap keeps its content (a permutation, still a heap, same
+   sorted view); no other condition, no lock and no task changes. *)
+Theorem C14_notify_order :
+  forall (s : st) (c n : nat),
+    qwf (cpq (getc s c)) ->
+    (forall f, In f (pq_objs (cpq (getc s c))) -> f < length (futs s)) ->
+    let s' := notify_p s c n in
+    let order := pq_objs (pq_sort HQ (cpq (getc s c))) in
+    let W := firstn n (filter (fun f => negb (fdone s f)) order) in
+    sorted (plt HQ) (arr (pq_sort HQ (cpq (getc s c)))) /\
+    Permutation order (pq_objs (cpq (getc s c))) /\
+    (forall f, In f W -> fstate_ (getf s' f) = FResult 1) /\
+    (forall f, ~ In f W -> getf s' f = getf s f) /\
+    qwf (cpq (getc s' c)) /\
+    Permutation (arr (cpq (getc s' c))) (arr (cpq (getc s c))) /\
+    pq_sort HQ (cpq (getc s' c)) = pq_sort HQ (cpq (getc s c)) /\
+    (forall c', c' <> c -> getc s' c' = getc s c') /\
+    locks s' = locks s /\ tasks s' = tasks s.
+Proof. exact notify_order_full. Qed.
+Print Assumptions C14_notify_order.
+
+(* InterruptCondition inherits asyncio.Condition.notify: the same over the deque, in arrival order *)
+Theorem C14_notify_order_interrupt_condition :
+  forall (s : st) (c n : nat),
+    NoDup (cdq (getc s c)) -> (forall f, In f (cdq (getc s c)) -> f < length (futs s)) ->
+    let s' := notify_i s c n in
+    let W := firstn n (filter (fun f => negb (fdone s f)) (cdq (getc s c))) in
+    (forall f, In f W -> fstate_ (getf s' f) = FResult 0) /\
+    (forall f, ~ In f W -> getf s' f = getf s f) /\
+    conds s' = conds s /\ locks s' = locks s /\ tasks s' = tasks s.
+Proof. exact notify_order_i_full. Qed.
+Print Assumptions C14_notify_order_interrupt_condition.
+
+(* PriorityCondition: every exceptional exit from wait() - in particular of a waiter whose
+   future already holds the notification - goes through a state s1 in which the lock has been
+   re-acquired by the caller and then runs `_notify(1)` (the final state IS notify_p s1 c 1);
+   the leaving waiter is no longer queued there while every other waiter still is; and
+   _notify(1) gives the result to the (priority, arrival)-first pending waiter if there is
+   one, else changes no future.  So a notification consumed by a waiter that then leaves
+   exceptionally is handed to another waiter or finds none. *)
+Theorem C14_not_lost :
+  forall (s : st) (t c : nat) (frs : list frame) (inp : reply) (s' : st) (e : exn),
+    let l := clock (getc s c) in
+    wait_stack c l frs -> stack_wf s t l frs ->
+    (l < length (locks s) /\
+     (lkind_ (getl s l) = LPrio -> llocked (getl s l) = false -> lowner (getl s l) = None)) ->
+    (at_wait_point frs = true -> lkind_ (getl s l) = LPrio ->
+     is_prio_task s t = true -> twaiting (gett s t) = None) ->
+    wait_input s l frs inp ->
+    is_pcond frs = true ->
+    qwf (cpq (getc s c)) -> (forall f, In f (pq_objs (cpq (getc s c))) -> f < length (futs s)) ->
+    resume_stack t frs inp s = (s', LDone (RExc e)) ->
+    exists s1,
+      (llocked (getl s1 l) = true /\ (lkind_ (getl s1 l) = LPrio -> lowner (getl s1 l) = Some t)) /\
+      s' = notify_p s1 c 1 /\
+      (forall f, frs = [InFut f; InCondWaitP c f] -> c < length (conds s) ->
+                 In f (pq_objs (cpq (getc s c))) -> ~ In f (pq_objs (pq_sort HQ (cpq (getc s1 c))))) /\
+      (forall g, In g (pq_objs (pq_sort HQ (cpq (getc s1 c)))) -> In g (pq_objs (cpq (getc s c)))) /\
+      (forall g, In g (pq_objs (cpq (getc s c))) -> frs <> [InFut g; InCondWaitP c g] ->
+                 In g (pq_objs (pq_sort HQ (cpq (getc s1 c))))) /\
+      match filter (fun f => negb (fdone s1 f)) (pq_objs (pq_sort HQ (cpq (getc s1 c)))) with
+      | f :: _ => fstate_ (getf s' f) = FResult 1 /\ (forall g, g <> f -> getf s' g = getf s1 g)
+      | [] => forall g, getf s' g = getf s1 g
+      end.
+Proof. exact not_lost_full. Qed.
+Print Assumptions C14_not_lost.
+
+(* Entering wait(): whenever `cond.wait()` suspends at all, it is at the `await fut` point of the
+   family above (PriorityCondition or InterruptCondition according to the condition's kind),
+   so the theorems cover every suspension of wait() from the first one on. *)
+Theorem C14_wait_entry :
+  forall (t c : nat) (s s' : st) (y : yielded) (frs : list frame),
+    lib_call t (OCondWait c) s = (s', LSusp y frs) ->
+    exists f, y = YFut f /\
+              frs = [InFut f; wait_frame (match ckind_ (getc s c) with CPrio => true | CIntr => false end) c f] /\
+              at_wait_point frs = true /\ (forall l, wait_stack c l frs).
+Proof. exact cond_wait_entry. Qed.
+Print Assumptions C14_wait_entry.
